@@ -67,3 +67,57 @@ Definition offending (l : list access) : list access := filter (fun a => negb (a
 Record callsite := mkCall { cs_caller : string; cs_callee : string; cs_held : list string }.
 Definition callsite_ok (c : callsite) : bool :=
   forallb (fun m => mem m (cs_held c)) (caller_holds (cs_callee c)).
+
+(* ---- the pool's waiting discipline (C17; Pool/Progress.v is proved about a system that follows it) ----
+   T2 also reports every call made by a function of engine/gengine_pool.go to a method of the pool, to a
+   function of that file or to the engine's Execute* ([gen_poolcalls]) and every lock acquisition in that
+   file ([gen_poolacqs]), each with the mutexes held at that point.
+     wait_ok  : a function that may WAIT — getGengine (for an instance), the engine's Execute* (for the
+                rules, which may themselves call an update of the pool), and whatever calls one of them —
+                is called with no mutex of the pool held;
+     order_ok : mutexes are acquired in the order updateLock < stateLock < getEngineLock < runningLock,
+                additionLock (directly or through calls), and nothing is acquired inside a read section
+                of stateLock. *)
+Record acq := mkAcq { q_fn : string; q_lock : string; q_held : list string }.
+
+Definition lock_rank (l : string) : option nat :=
+  if String.eqb l "R.updateLock" then Some 0
+  else if String.eqb l "R.stateLock" || String.eqb l "R.stateLock#r" then Some 1
+  else if String.eqb l "R.getEngineLock" then Some 2
+  else if String.eqb l "R.runningLock" || String.eqb l "R.additionLock" then Some 3
+  else None.
+
+Definition below (h l : string) : bool :=
+  match lock_rank h, lock_rank l with Some a, Some b => Nat.ltb a b | _, _ => false end.
+
+Definition waits0 : list string := ["getGengine"; "engine.Execute"].
+
+Fixpoint waiting (fuel : nat) (cs : list callsite) (w : list string) : list string :=
+  match fuel with
+  | 0 => w
+  | S f => waiting f cs (w ++ map cs_caller (filter (fun c => mem (cs_callee c) w && negb (mem (cs_caller c) w)) cs))
+  end.
+
+Definition wait_site_ok (w : list string) (c : callsite) : bool :=
+  if mem (cs_callee c) w then match (cs_held c ++ caller_holds (cs_caller c))%list with [] => true | _ => false end else true.
+
+Definition wait_ok (cs : list callsite) : bool := forallb (wait_site_ok (waiting 6 cs waits0)) cs.
+Definition bad_waits (cs : list callsite) : list callsite := filter (fun c => negb (wait_site_ok (waiting 6 cs waits0) c)) cs.
+
+(* acquisitions made through calls: the callee's acquisitions, with the caller's mutexes added *)
+Definition derived (cs : list callsite) (qs : list acq) : list acq :=
+  flat_map (fun c => map (fun q => mkAcq (cs_caller c) (q_lock q) (cs_held c ++ q_held q))
+                         (filter (fun q => String.eqb (q_fn q) (cs_callee c)) qs)) cs.
+
+Fixpoint all_acqs (fuel : nat) (cs : list callsite) (qs : list acq) : list acq :=
+  match fuel with 0 => qs | S f => (qs ++ derived cs (all_acqs f cs qs))%list end.
+
+Definition acq_ok (q : acq) : bool :=
+  let held := (q_held q ++ caller_holds (q_fn q))%list in
+  forallb (fun h => below h (q_lock q)) held && negb (mem "R.stateLock#r" held).
+
+Definition order_ok (cs : list callsite) (qs : list acq) : bool := forallb acq_ok (all_acqs 3 cs qs).
+Definition bad_acqs (cs : list callsite) (qs : list acq) : list acq := filter (fun q => negb (acq_ok q)) (all_acqs 3 cs qs).
+
+(* the table is about the code it is meant to be about: the waiting function exists and is called *)
+Definition wait_table_nonempty (cs : list callsite) : bool := existsb (fun c => String.eqb (cs_callee c) "getGengine") cs && existsb (fun c => String.eqb (cs_callee c) "engine.Execute") cs.
